@@ -93,8 +93,13 @@ class Check:
             self.deferred.append(exc)
             return None
 
+    def new_violations(self):
+        """Violations that are not listed known findings."""
+        known = {(k["property"], k["rule"], k["key"]) for k in load_known().get("known", [])}
+        return [o for o in self.violations() if (self.prop_id, o.rule, o.key) not in known]
+
     def raise_deferred(self):
-        if self.deferred and not self.violations():
+        if self.deferred and not self.new_violations():
             raise self.deferred[0]
         for exc in self.deferred:
             self.note(f"rule group not evaluated: {exc}")
